@@ -6,7 +6,8 @@ Everything here is a pure function of plain data:
   mparam    := {"svc": <service name>, "exp": <expected value text>, "tgt": "id"|"nrc",
                 "phys": None|True|False}                 (phys only for base variants; None == default == physical)
   candidate := {"kind": "EV"|"BV", "own": [service names the variant re-defines with its own request], "patterns": [[mparam..]..]}
-  answer    := "V1" | "V2" | "NEG" | "BAD"               what the ECU replies to one identification request
+  answer    := "V1" | "V2" | "NEG" | "BAD" | "EMPTY"     what the ECU replies to one identification request
+                (value 1, value 2, negative response, truncated = undecodable bytes, a reply of zero bytes)
   ecu       := {request key: answer}                     request key = "P:<hex>" / "F:<hex>" (physical / functional)
 
 `first_match` is the property text, literally: the first candidate in list order that has a pattern all of
@@ -19,7 +20,7 @@ import itertools
 import struct
 from typing import Any, Dict, Iterable, List, Optional, Sequence, Tuple
 
-ANSWERS = ("V1", "V2", "NEG", "BAD")
+ANSWERS = ("V1", "V2", "NEG", "BAD", "EMPTY")
 NRC = 0x31
 OWN_DID_FLAG = 0x0080  # a variant's own re-definition of service X asks for did | 0x0080 ...
 OWN_PAD = 0xEE  # ... and its positive response carries this constant byte before the payload
@@ -144,6 +145,8 @@ def response_bytes(svc: Dict[str, Any], answer: str, own: bool = False) -> bytes
     did = did_of(svc, own).to_bytes(2, "big")
     if answer == "NEG":
         return bytes([0x7F, 0x22, NRC])
+    if answer == "EMPTY":
+        return b""  # an ECU that answers with no data at all is a deterministic ECU; no response object (all have parameters) decodes it
     if answer == "BAD":
         return bytes([0x62, did[0]])  # truncated: too short for the positive, the negative and the global negative response
     body = b"".join(wire(svc["type"], v) for v in item_values(svc, answer))
